@@ -68,7 +68,17 @@ TINY = 77            # abstract entry rendered as the stored logit +-3e-9: store
 TINY_REAL = 3e-9
 
 
+SCALE_OFF = 20       # spec/LogitsStore.tla ScaleOff: tag t + 20 = the matrix of tag t after `line.logits *= 2` (exact: a power of two)
+PATH_VARIANTS = ("abs", "bare", "rel", "dot")      # how a driver spells the path of the logits file (round 9)
+PV_DOC = {"abs": "absolute path", "bare": "bare file name, working directory = the directory of the file",
+          "rel": "relative path with a directory part", "dot": "./name in the working directory"}
+
+
 def real_matrix(u, t):
+    if t > SCALE_OFF and t not in u["mats"]:
+        m = real_matrix(u, t - SCALE_OFF)
+        m *= 2
+        return m
     m = np.array(u["mats"][t], dtype=np.float64)
     arr = m / 8
     arr[m == TINY] = TINY_REAL
@@ -108,7 +118,7 @@ def _tag_matrix(m, u):
     try:
         if not sp.issparse(m):
             return BADTAG
-        for t, ref in u["mats"].items():
+        for t in list(u["mats"]) + [t + SCALE_OFF for t in u["mats"] if t < SCALE_OFF]:
             r = real_matrix(u, t)
             if m.shape == r.shape and m.dtype == r.dtype and m.format == r.format and m.nnz == r.nnz \
                     and np.array_equal(m.toarray(), r.toarray()):
@@ -203,9 +213,28 @@ def run_case(case):
     u = {"mats": {int(k): v for k, v in u["mats"].items()}, "chars": {int(k): v for k, v in u["chars"].items()},
          "coords": {int(k): v for k, v in u["coords"].items()}, "dtypes": {int(k): v for k, v in u["dtypes"].items()}}
     tr = {"A": case["A"], "B": case["B"], "events": [], "outcome": "ok"}
-    path = os.path.join(_WORKDIR["path"], "lg_%d.pkl" % os.getpid())
+    # the logits file lives in a directory of this process; case["pv"] = [spelling used by Save, spelling used by Load]:
+    # absolute, bare file name (working directory = that directory), relative with a directory part (working directory = its
+    # parent), "./name".  Default: absolute for both (what the check did up to round 8).
+    pdir = os.path.join(_WORKDIR["path"], "p%d.out 1" % os.getpid())
+    os.makedirs(pdir, exist_ok=True)
+    path = os.path.join(pdir, "lg.pkl")
     if os.path.exists(path):
         os.remove(path)
+    pv = list(case.get("pv") or ["abs", "abs"])
+    start_dir = os.getcwd()
+
+    def spelled(v):
+        """-> (working directory, file name as passed to the real code)"""
+        if v == "bare":
+            return pdir, "lg.pkl"
+        if v == "rel":
+            return os.path.dirname(pdir), os.path.join(os.path.basename(pdir), "lg.pkl")
+        if v == "dot":
+            return pdir, os.path.join(".", "lg.pkl")
+        return start_dir, path
+
+    handed = {}          # (layout name, line object id) -> arrays earlier Dense calls returned
     slot = {"bytes": None}
     try:
         cd = bool(case.get("ctor_defaults"))
@@ -229,21 +258,55 @@ def run_case(case):
                   "ents": [], "obs": [], "lse": 0, "shift": 0, "tok": 0}
             if op == "Load" and content(k) is None:
                 continue
-            if op == "Dense":
+            if op in ("Dense", "Rescale", "Scribble"):
                 flat = list(lay[L].lines_iterator())
                 if i > len(flat) or flat[i - 1].logits is None:
                     continue
+                if op == "Scribble" and not handed.get((L, i)):
+                    continue
+                if op == "Rescale" and _tag_matrix(flat[i - 1].logits, u) == BADTAG:
+                    continue
+            if k == "file" and op in ("Save", "Load"):
+                ev["pv"] = pv[0 if op == "Save" else 1]
             try:
                 if op == "Save":
                     if k == "file":
-                        lay[L].save_logits(path, missing_line_logits_ok=bool(ok))
+                        wd, name = spelled(ev["pv"])
+                        os.chdir(wd)
+                        try:
+                            lay[L].save_logits(name, missing_line_logits_ok=bool(ok))
+                        finally:
+                            os.chdir(start_dir)
                     else:
                         slot["bytes"] = lay[L].save_logits_bytes(missing_line_logits_ok=bool(ok))
                 elif op == "SaveLegacy":
                     with open(path, "wb") as fh:      # what an old version wrote: a dictionary of matrices only
                         pickle.dump({l.id: l.logits for l in lay[L].lines_iterator() if l.logits is not None}, fh, protocol=4)
                 elif op == "Load":
-                    lay[L].load_logits(path if k == "file" else slot["bytes"])
+                    if k == "file":
+                        wd, name = spelled(ev["pv"])
+                        os.chdir(wd)
+                        try:
+                            lay[L].load_logits(name)
+                        finally:
+                            os.chdir(start_dir)
+                    else:
+                        lay[L].load_logits(slot["bytes"])
+                elif op == "Rescale":
+                    # the caller edits the stored logits in place (temperature scaling): the matrix object stays the same
+                    line = list(lay[L].lines_iterator())[i - 1]
+                    f = 0.5 if _tag_matrix(line.logits, u) > SCALE_OFF else 2.0
+                    if fl == 0:
+                        line.logits *= f
+                    else:
+                        line.logits.data *= f
+                elif op == "Scribble":
+                    # the caller post-processes, in place, the arrays it was handed by earlier calls (v -> 1/8 - v: no fixed point
+                    # on the 1/8 grid)
+                    for a in handed[(L, i)]:
+                        if isinstance(a, np.ndarray) and a.flags.writeable:
+                            a *= -1
+                            a += 0.125
                 elif op == "Dense":
                     line = list(lay[L].lines_iterator())[i - 1]
                     if fl == 80:
@@ -253,6 +316,7 @@ def run_case(case):
                         dense = line.get_dense_logits(zero_logit_value=-fl)
                         full = line.get_full_logprobs(zero_logit_value=-fl)
                     ev["obs"] = _fix8(dense)
+                    handed.setdefault((L, i), []).extend([dense, full])
                     if dense.size:
                         d64 = np.asarray(dense, dtype=np.float64)
                         f64 = np.asarray(full, dtype=np.float64)
@@ -276,8 +340,10 @@ def run_case(case):
         tr["outcome"] = "exception:" + type(ex).__name__
         tr["error"] = str(ex)[:200]
     finally:
-        if os.path.exists(path):
-            os.remove(path)
+        os.chdir(start_dir)
+        if os.path.isdir(pdir):
+            for f in os.listdir(pdir):
+                os.remove(os.path.join(pdir, f))
     return tr
 
 
@@ -352,6 +418,13 @@ def run_composite(case):
     A = [{"id": i, "lg": BASE[i], "ch": BASE[i], "co": BASE[i]} for i in ids]
     tr = {"A": A, "B": [{"id": i, "lg": NONE, "ch": NONE, "co": NONE} for i in ids], "events": [], "outcome": "ok"}
     path = os.path.join(_WORKDIR["path"], "cmp_%d" % os.getpid())
+    # round 9: case["pv"] = how the paths of the PAGE XML and logits files are spelled for the real code (default absolute)
+    pv = case.get("pv") or "abs"
+    start_dir = os.getcwd()
+    wd, stem = {"bare": (os.path.dirname(path), os.path.basename(path)),
+                "dot": (os.path.dirname(path), os.path.join(".", os.path.basename(path))),
+                "rel": (os.path.dirname(os.path.dirname(path)),
+                        os.path.join(os.path.basename(os.path.dirname(path)), os.path.basename(path)))}.get(pv, (start_dir, path))
     try:
         orig = build_layout(A, u, "O")
         y = 20
@@ -371,7 +444,11 @@ def run_composite(case):
         ver = PAGEVersion.PAGE_2019_07_15 if case["ver"] == 1 else PAGEVersion.PAGE_2013_07_15
         xml = orig.to_pagexml_string(version=ver)
         np.random.seed(7)
-        if case["via"] == "ctor":
+        os.chdir(wd)
+        if case["via"] == "ctor" and "pv" in case:
+            orig.to_pagexml(stem + ".xml", version=ver)               # the saved PAGE XML, written by the real code
+            reb = PageLayout(file=stem + ".xml")
+        elif case["via"] == "ctor":
             with open(path + ".xml", "w", encoding="utf-8") as fh:
                 fh.write(xml)
             reb = PageLayout(file=path + ".xml")
@@ -390,11 +467,11 @@ def run_composite(case):
                                  "A": proj_layout(lay["A"], u), "B": proj_layout(lay["B"], u)})
 
         if case["k"] == "file":
-            orig.save_logits(path + ".pkl")
+            orig.save_logits(stem + ".pkl")
             with open(path + ".pkl", "rb") as fh:
                 blob = fh.read()
             event("Save", "A", "file", store=blob)
-            reb.load_logits(path + ".pkl")
+            reb.load_logits(stem + ".pkl")
         else:
             blob = orig.save_logits_bytes()
             event("Save", "A", "bytes", store=blob)
@@ -414,7 +491,8 @@ def run_composite(case):
         tr["outcome"] = "exception:" + type(ex).__name__
         tr["error"] = str(ex)[:300]
     finally:
-        for ext in (".xml", ".pkl"):
-            if os.path.exists(path + ext):
-                os.remove(path + ext)
+        os.chdir(start_dir)
+        for f in os.listdir(os.path.dirname(path)):
+            if f.startswith(os.path.basename(path) + "."):
+                os.remove(os.path.join(os.path.dirname(path), f))
     return tr
